@@ -198,9 +198,12 @@ std::optional<sqf::runtime::fileio::pathinfo> sqf::fileio::impl_default::get_inf
 {
     log(logmessage::fileio::ResolvePhysicalRequested(current.physical, current.virtual_, viewVirtual));
 
-    std::filesystem::path toFindPath(viewVirtual);
+    // Requests separate with either kind of slash, regardless of what the host filesystem uses
+    auto request = std::string(sqf::runtime::util::trim(std::string(viewVirtual)));
+    std::replace(request.begin(), request.end(), '\\', '/');
+    std::filesystem::path toFindPath(request);
     toFindPath = toFindPath.lexically_normal();
-    if (toFindPath.is_relative() || (viewVirtual.size() > 3 && (viewVirtual.substr(0, 3) == "../"sv || viewVirtual.substr(0, 3) == "..\\"sv)))
+    if (toFindPath.is_relative() || (request.size() > 3 && request.substr(0, 3) == "../"s))
     {
         if (std::filesystem::is_regular_file(current.physical))
         {
